@@ -107,6 +107,9 @@ pub struct Params {
     pub query_pow_bits: usize,
     pub batches: Vec<Vec<MatSpec>>,
     pub data_seed: u64,
+    /// cap height of the value MMCS (and therefore of the FRI commit-phase MMCS): 0 = single root
+    #[serde(default)]
+    pub cap_height: usize,
 }
 
 impl Params {
@@ -122,7 +125,7 @@ impl Params {
             })
             .collect();
         format!(
-            "{}:lb{}:q{}:a{}:fp{}:cp{}:qp{}:[{}]",
+            "{}:lb{}:q{}:a{}:fp{}:cp{}:qp{}{}:[{}]",
             self.flavor,
             self.log_blowup,
             self.num_queries,
@@ -130,6 +133,7 @@ impl Params {
             self.log_final_poly_len,
             self.commit_pow_bits,
             self.query_pow_bits,
+            if self.cap_height > 0 { format!(":cap{}", self.cap_height) } else { String::new() },
             shape.join("|")
         )
     }
@@ -655,7 +659,7 @@ mod bb {
     }
     pub fn make_pcs(p: &Params) -> ThePcs {
         let perm = default_perm();
-        let val_mmcs = MyMmcs::new(MyHash::new(perm.clone()), MyCompress::new(perm), 0);
+        let val_mmcs = MyMmcs::new(MyHash::new(perm.clone()), MyCompress::new(perm), p.cap_height);
         let fp = fri_params(p, ChallengeMmcs::new(val_mmcs.clone()));
         ThePcs::new(Dft::default(), val_mmcs, fp)
     }
@@ -709,7 +713,7 @@ mod kb {
     }
     pub fn make_pcs(p: &Params) -> ThePcs {
         let perm = default_perm();
-        let val_mmcs = MyMmcs::new(MyHash::new(perm.clone()), MyCompress::new(perm), 0);
+        let val_mmcs = MyMmcs::new(MyHash::new(perm.clone()), MyCompress::new(perm), p.cap_height);
         let fp = fri_params(p, ChallengeMmcs::new(val_mmcs.clone()));
         ThePcs::new(Dft::default(), val_mmcs, fp)
     }
@@ -781,7 +785,7 @@ mod kbh {
         let val_mmcs = HidingValMmcs::new(
             MyHash::new(perm.clone()),
             MyCompress::new(perm),
-            0,
+            p.cap_height,
             SmallRng::seed_from_u64(p.data_seed ^ 0x5a17),
         );
         let fp = fri_params(p, HidingChallengeMmcs::new(val_mmcs.clone()));
@@ -840,7 +844,7 @@ mod kbz {
     }
     pub fn make_pcs(p: &Params) -> ThePcs {
         let perm = default_perm();
-        let val_mmcs = MyMmcs::new(MyHash::new(perm.clone()), MyCompress::new(perm), 0);
+        let val_mmcs = MyMmcs::new(MyHash::new(perm.clone()), MyCompress::new(perm), p.cap_height);
         let fp = fri_params(p, ChallengeMmcs::new(val_mmcs.clone()));
         ThePcs::new(Dft::default(), val_mmcs, fp, 2, SmallRng::seed_from_u64(p.data_seed ^ 0xc0de))
     }
@@ -929,7 +933,13 @@ fn pt(
         query_pow_bits: qp,
         batches,
         data_seed: 0,
+        cap_height: 0,
     }
+}
+
+fn capped(mut p: Params, cap: usize) -> Params {
+    p.cap_height = cap;
+    p
 }
 
 /// Hand-designed covering set: every value of every grid dimension occurs at least once.
@@ -966,6 +976,12 @@ fn designed_grid(seed: u64) -> Vec<Params> {
         pt("bb", 2, 5, 2, 1, 0, 1, vec![vec![ms(2, 1, 1), ms(4, 1, 3)], vec![ms(3, 2, 1), ms(4, 2, 2)], vec![ms(4, 1, 1)]]),
         // hiding PCS over plain MMCSs, arity 4, final polynomial of length 2, a single query
         pt("kb-hiding", 1, 1, 2, 1, 0, 2, vec![vec![ms(5, 2, 3), ms(3, 1, 1)], vec![ms(4, 1, 2), ms(5, 1, 1)]]),
+        // Merkle caps with several roots: cap 1 below every tree; cap 2 reaching the last commit-phase
+        // layer (no sibling path left there: lb 1 + fp 0 -> final layer of height 2 <= cap); hiding + cap
+        capped(pt("bb", 2, 2, 1, 0, 1, 1, vec![vec![ms(3, 2, 1), ms(5, 3, 3)], vec![ms(4, 2, 1), ms(5, 1, 1)]]), 1),
+        capped(pt("kb", 1, 3, 2, 0, 0, 1, vec![vec![ms(6, 2, 3)], vec![ms(4, 3, 1), ms(6, 1, 1)]]), 2),
+        capped(pt("kb-hiding-salted", 2, 2, 1, 0, 1, 1, vec![vec![ms(4, 3, 3)], vec![ms(4, 2, 1), ms(3, 1, 1)]]), 2),
+        capped(pt("bb", 1, 2, 2, 1, 0, 0, vec![vec![ms(5, 1, 1), ms(3, 2, 1)]]), 3),
         // probe: a commitment whose tallest matrix is shorter than the global maximum height
         pt("bb", 1, 1, 1, 0, 0, 0, vec![vec![ms(2, 1, 1)], vec![ms(1, 1, 1)]]),
         // probe: only constant polynomials, i.e. an honest proof without any fold phase
@@ -1041,6 +1057,11 @@ fn random_point(seed: u64, idx: usize, big: bool) -> Params {
     }
     let mut p = pt(flavor, lb, q, a, fp, cp, qp, batches);
     p.data_seed = rng.random::<u64>();
+    // one point in four has a multi-root cap (the draw comes last so that the other dimensions of
+    // the point do not depend on it)
+    if idx % 4 == 2 {
+        p.cap_height = 1 + rng.random_range(0..3usize);
+    }
     p
 }
 
